@@ -112,7 +112,13 @@ func solveOne(o *Obligation, scratch string, timeoutS int, cross bool) {
 	var outputs []string
 	o.Status = "unknown"
 	for si, s := range solvers {
+		if o.Sweep && si > 0 {
+			break // sweeps: primary solver only
+		}
 		t := timeoutS
+		if o.Sweep && t > 4 {
+			t = 4
+		}
 		if si == 0 && timeoutS > 4 {
 			t = timeoutS // primary solver gets the full budget
 		}
